@@ -4,10 +4,6 @@
 mod driver;
 mod props;
 #[allow(dead_code)]
-mod gen_;
-#[allow(dead_code)]
-mod model;
-#[allow(dead_code)]
 mod worker;
 
 use driver::{ReplayFile, Run, Tier};
